@@ -543,6 +543,72 @@ def rule234(ctx, rep, M):
             if sets and fn.name != 'transitioning':
                 r3.instance()
                 r3.ok(f'{q}:transitioning-writes', f'{len(sets)} write(s) interpreted in the composed machine', where(fn))
+        # the setter itself: the composed machine above *assumes* that asking for entering / exiting raises unless the
+        # marker is active; here the guard written in the property setter is evaluated for all 3 x 3 (requested, current)
+        # pairs (added after seeded change C10-9, which let "the status already held" through: reload marks itself
+        # exiting, so the refusing before-callbacks - which ask for exiting - no longer refused during a reload)
+        r3.instance()
+        setter = None
+        for q_, fn_ in prog.funcs.items():
+            if fn_.cls is not None and fn_.cls.qname == FSM and fn_.name == 'transitioning' and len(fn_.params()) == 2:
+                setter = fn_
+        if setter is None:
+            raise AnalysisError('FSM.transitioning setter not found')
+        rep.analysed(setter)
+        req_name = setter.params()[1]
+        VALS = ('active', 'entering', 'exiting')
+
+        class _NU2(Exception):
+            pass
+
+        def sval(e, req, cur):
+            if isinstance(e, ast.Name) and e.id == req_name:
+                return req
+            if isinstance(e, ast.Attribute) and e.attr in ('transitioning', '_FSM__transitioning') and isinstance(e.value, ast.Name) and e.value.id == 'self':
+                return cur
+            if isinstance(e, ast.Attribute) and e.attr in VALS:
+                return e.attr
+            if isinstance(e, (ast.Tuple, ast.List, ast.Set)):
+                return tuple(sval(x, req, cur) for x in e.elts)
+            raise _NU2(norm(e))
+
+        def struth(e, req, cur):
+            if isinstance(e, ast.BoolOp):
+                vals = [struth(v, req, cur) for v in e.values]
+                return all(vals) if isinstance(e.op, ast.And) else any(vals)
+            if isinstance(e, ast.UnaryOp) and isinstance(e.op, ast.Not):
+                return not struth(e.operand, req, cur)
+            if isinstance(e, ast.Compare) and len(e.ops) == 1:
+                a, b = sval(e.left, req, cur), sval(e.comparators[0], req, cur)
+                op = e.ops[0]
+                if isinstance(op, (ast.Eq, ast.Is)):
+                    return a == b
+                if isinstance(op, (ast.NotEq, ast.IsNot)):
+                    return a != b
+                if isinstance(op, ast.In):
+                    return a in b
+                if isinstance(op, ast.NotIn):
+                    return a not in b
+            raise _NU2(norm(e))
+
+        guards = [n for n in setter.own_nodes() if isinstance(n, ast.If) and any(isinstance(x, ast.Raise) for b in n.body for x in ast.walk(b))]
+        wrong = []
+        try:
+            for req in VALS:
+                for cur in VALS:
+                    raises = any(struth(g.test, req, cur) for g in guards)
+                    want = req in ('entering', 'exiting') and cur != 'active'
+                    if raises != want:
+                        wrong.append((req, cur, raises))
+            r3.check(
+                bool(guards) and not wrong,
+                f'{setter.qname}:guard',
+                where(setter),
+                'raises exactly when entering / exiting is requested while the marker is not active (9 pairs)',
+                f'the transitioning setter raises for (requested, current) = {[(a, b) for a, b, c in wrong if c]} and not for {[(a, b) for a, b, c in wrong if not c]}; it must refuse exactly entering / exiting while not active, which is what the refusing before-callbacks rely on',
+            )
+        except _NU2 as e_:
+            r3.fail(f'{setter.qname}:guard', where(setter), f'guard of the transitioning setter not understood: {e_}')
         # the transitioning marker is set before the step is handed to the thread pool: the worker may finish (and, for the
         # archive, run _archive_done in its own thread) before the launching method executes its next statement (added after
         # seeded change C10-7: `transitioning = entering` moved behind deferToThread in FSM.archive)
@@ -796,6 +862,7 @@ def check(ctx):
 
 
 VARIANTS = [
+    V('setter lets the status already held through', 'B', 'pl/state.py', 'FSM.transitioning', 'status in (Status.entering, Status.exiting)', 'status not in (Status.active, self.__transitioning)', 'R-C10-3'),
     V('archive marks entering after the hand-over', 'B', 'pl/state.py', 'FSM.archive', "d.addErrback(\n                dawgie.pl.LogFailure(\n                    'while archiving the pipeline', __name__\n                ).log\n            )", "d.addErrback(\n                dawgie.pl.LogFailure(\n                    'while archiving the pipeline', __name__\n                ).log\n            )\n            self.transitioning = Status.entering", 'R-C10-3'),
     V('reset no longer refuses while a reload is outstanding', 'B', 'pl/state.py', 'FSM.reset', 'self.transitioning = Status.exiting\n        self.wait_on_crew.set()\n        self.wait_on_doing.set()\n        self.wait_on_todo.set()\n        self.priority = None\n        self.transitioning = Status.active', 'self.wait_on_crew.set()\n        self.wait_on_doing.set()\n        self.wait_on_todo.set()\n        self.priority = None', 'R-C10-7'),
     V('guard dropped from the introspect edge', 'B', 'pl/state.dot', None, 'before=step_is_done,\n                                 after=navel_gaze', 'after=navel_gaze', 'R-C10-7'),
